@@ -189,14 +189,21 @@ func Explode(dstDir string, inputShard string) error {
 		}
 	}
 
-	// best effort rename shards.
+	// The compound shard is gone, so every shard we fail to rename is a lost
+	// repository: report it instead of claiming success. Renamed shards are
+	// removed from exploded so that the deferred cleanup only removes what is
+	// left over.
+	var renameErrs []error
 	for tmpFn, dstFn := range exploded {
 		if err := os.Rename(tmpFn, dstFn); err != nil {
 			log.Printf("explode: rename failed: %s", err)
+			renameErrs = append(renameErrs, err)
+			continue
 		}
+		delete(exploded, tmpFn)
 	}
 
-	return nil
+	return errors.Join(renameErrs...)
 }
 
 type shardBuilderFunc func(ib *ShardBuilder)
